@@ -29,6 +29,13 @@ pub enum Universe {
     /// castling x en passant product: kings on e1/e8, every (rook subset, rights subset) of UC, a capturer/victim pawn pair
     /// on every file pair, with the en-passant flag set and not set, both colours: all (rights, ep) state bytes on one board
     UCE,
+    /// pin family: a king, an own piece of every kind at every distance in each of the 8 directions from it, an enemy
+    /// slider of every kind further along the same ray (pinning or not, depending on its kind), the enemy king on two
+    /// squares off the ray; both sides to move, both colours
+    UPIN,
+    /// double-attack family: a king and two enemy pieces (every kind pair, every placement) that BOTH attack it, the
+    /// enemy king on two far squares; the attacked side to move; both colours
+    UDBL,
     /// promotion family: a pawn on its 7th rank on each file with 0..=2 capturable enemy pieces (r,n,q) on the adjacent 8th-rank squares and optionally a blocker in front, kings on a fixed pair of safe squares sets
     UP,
 }
@@ -45,13 +52,15 @@ impl Universe {
             Universe::UCK { extras } => format!("UCK+{}", extras),
             Universe::UEA => "UEA".into(),
             Universe::UCE => "UCE".into(),
+            Universe::UPIN => "UPIN".into(),
+            Universe::UDBL => "UDBL".into(),
         }
     }
 
     /// number of independent work units (for sharding over threads)
     pub fn units(&self) -> usize {
         match self {
-            Universe::U2 | Universe::U3 | Universe::U4 { .. } | Universe::UE { .. } | Universe::UCK { .. } => 64,
+            Universe::U2 | Universe::U3 | Universe::U4 { .. } | Universe::UE { .. } | Universe::UCK { .. } | Universe::UPIN | Universe::UDBL => 64,
             Universe::UEA => 8,
             Universe::UC { .. } | Universe::UCE => 81,
             Universe::UP => 8,
@@ -91,6 +100,8 @@ impl Universe {
             Universe::UP => up_unit(unit as i8, f),
             Universe::UCK { extras } => uck_unit(unit as u8, *extras, f),
             Universe::UEA => uea_unit(unit as i8, f),
+            Universe::UPIN => upin_unit(unit as u8, f),
+            Universe::UDBL => udbl_unit(unit as u8, f),
             Universe::UCE => {
                 let base = uc_base(unit);
                 for cf in 0..8i8 {
@@ -465,6 +476,104 @@ fn uea_unit(cf: i8, f: &mut dyn FnMut(Pos)) {
                             if m.sane() && m.engine_ep_file() != 8 {
                                 f(m);
                             }
+                        }
+                    }
+                }
+            }
+        }
+    }
+}
+
+fn far_kings(avoid: &dyn Fn(u8) -> bool, n: usize) -> Vec<u8> {
+    [56u8, 63, 0, 7, 59, 4, 31, 24].into_iter().filter(|s| !avoid(*s)).take(n).collect()
+}
+
+fn upin_unit(k: u8, f: &mut dyn FnMut(Pos)) {
+    let dirs: [(i8, i8); 8] = [(1, 0), (-1, 0), (0, 1), (0, -1), (1, 1), (1, -1), (-1, 1), (-1, -1)];
+    let (kr, kf) = (rank_of(k), file_of(k));
+    for (dr, df) in dirs {
+        for i in 1..7i8 {
+            let (r1, f1) = (kr + dr * i, kf + df * i);
+            if !(0..8).contains(&r1) || !(0..8).contains(&f1) {
+                break;
+            }
+            for j in (i + 1)..8i8 {
+                let (r2, f2) = (kr + dr * j, kf + df * j);
+                if !(0..8).contains(&r2) || !(0..8).contains(&f2) {
+                    break;
+                }
+                let (s1, s2) = (sq(r1, f1), sq(r2, f2));
+                for own in [Q, R, B, N, P] {
+                    if own == P && (r1 == 0 || r1 == 7) {
+                        continue;
+                    }
+                    for enemy in [Q, R, B] {
+                        let on_ray = |s: u8| {
+                            let (r, ff) = (rank_of(s) - kr, file_of(s) - kf);
+                            (r == 0 && dr == 0 && ff.signum() == df) || (ff == 0 && df == 0 && r.signum() == dr) || (r.abs() == ff.abs() && r.signum() == dr && ff.signum() == df && dr != 0 && df != 0)
+                        };
+                        for bk in far_kings(&|s| s == k || s == s1 || s == s2 || adjacent(s, k) || on_ray(s), 2) {
+                            let mut p = Pos::empty();
+                            p.b[k as usize] = WK;
+                            p.b[s1 as usize] = code(own, true);
+                            p.b[s2 as usize] = code(enemy, false);
+                            p.b[bk as usize] = BK;
+                            for white in [true, false] {
+                                p.white = white;
+                                if p.sane() {
+                                    f(p);
+                                }
+                                let m = p.mirror();
+                                if m.sane() {
+                                    f(m);
+                                }
+                            }
+                        }
+                    }
+                }
+            }
+        }
+    }
+}
+
+fn udbl_unit(k: u8, f: &mut dyn FnMut(Pos)) {
+    for a in [Q, R, B, N, P] {
+        for b in [Q, R, B, N, P] {
+            if b < a {
+                continue;
+            }
+            for s1 in 0..64u8 {
+                if s1 == k || (a == P && (rank_of(s1) == 0 || rank_of(s1) == 7)) {
+                    continue;
+                }
+                let mut p1 = Pos::empty();
+                p1.b[k as usize] = WK;
+                p1.b[s1 as usize] = code(a, false);
+                if !p1.attacked_by(k, false) {
+                    continue;
+                }
+                for s2 in 0..64u8 {
+                    if s2 == k || s2 == s1 || (a == b && s2 < s1) || (b == P && (rank_of(s2) == 0 || rank_of(s2) == 7)) {
+                        continue;
+                    }
+                    let mut p2 = Pos::empty();
+                    p2.b[k as usize] = WK;
+                    p2.b[s2 as usize] = code(b, false);
+                    if !p2.attacked_by(k, false) {
+                        continue;
+                    }
+                    for bk in far_kings(&|s| s == k || s == s1 || s == s2 || adjacent(s, k), 2) {
+                        let mut p = p1;
+                        p.b[s2 as usize] = code(b, false);
+                        p.b[bk as usize] = BK;
+                        p.white = true;
+                        // both still attack with both on the board (one may shield the other)
+                        if p.sane() {
+                            f(p);
+                        }
+                        let m = p.mirror();
+                        if m.sane() {
+                            f(m);
                         }
                     }
                 }
